@@ -81,7 +81,7 @@ def finish(pid, tier, seed, t0, results, lemma_results, standin_results, known, 
             else:
                 faults.append(f"{r['target']}: {e}")
         obs = [o for o in r["obligations"] if pid in o["props"]]
-        if not r["obligations"]:
+        if not r["obligations"] and not any(e.startswith("unsupported") for e in r["errors"]):
             faults.append(f"{r['target']}: zero obligations generated (vacuity guard)")
         if r["vacuity"] and all(s == "discharged" for s in r["vacuity"]):
             faults.append(f"{r['target']}: every exit is unreachable under the contract's preconditions (vacuity guard)")
